@@ -156,4 +156,86 @@ theorem smallMulL_spec {cap : Nat} {x : Limbs} (h : Normalized x) (hlen : x.leng
       | none => rw [hz] at href; exact absurd href (by simp)
       | some z => exact ⟨z, rfl⟩
 
+/-! ## `compare` -/
+
+theorem eq_nil_or_snoc (l : Limbs) : l = [] ∨ ∃ l' b, l = l' ++ [b] := by
+  rcases List.eq_nil_or_concat l with h | ⟨l', b, h⟩
+  · exact Or.inl h
+  · exact Or.inr ⟨l', b, by rw [h, List.concat_eq_append]⟩
+
+theorem cmp_lt {a b : Nat} (h : a < b) : compare a b = .lt := Nat.compare_eq_lt.mpr h
+theorem cmp_gt {a b : Nat} (h : b < a) : compare a b = .gt := Nat.compare_eq_gt.mpr h
+theorem cmp_eq {a b : Nat} (h : a = b) : compare a b = .eq := Nat.compare_eq_eq.mpr h
+
+theorem compareTop_spec : ∀ (n : Nat) (xs ys : Limbs), xs.length = n → ys.length = n → LimbsOk xs → LimbsOk ys →
+    compareTop xs.reverse ys.reverse = compare (valL xs) (valL ys)
+  | 0, xs, ys, hx, hy, _, _ => by
+    have := List.eq_nil_of_length_eq_zero hx
+    have := List.eq_nil_of_length_eq_zero hy
+    subst_vars
+    simp [compareTop, valL]
+  | n + 1, xs, ys, hx, hy, ox, oy => by
+    rcases eq_nil_or_snoc xs with h | ⟨xs', a, rfl⟩
+    · subst h; simp at hx
+    rcases eq_nil_or_snoc ys with h | ⟨ys', b, rfl⟩
+    · subst h; simp at hy
+    simp only [List.length_append, List.length_singleton, Nat.add_right_cancel_iff] at hx hy
+    have ox' := (limbsOk_append.mp ox).1
+    have oy' := (limbsOk_append.mp oy).1
+    have ih := compareTop_spec n xs' ys' hx hy ox' oy'
+    rw [List.reverse_append, List.reverse_append]
+    simp only [List.reverse_singleton, List.singleton_append, compareTop]
+    rw [valL_append, valL_append, hx, hy]
+    have lx := valL_lt ox'
+    have ly := valL_lt oy'
+    rw [hx] at lx
+    rw [hy] at ly
+    have hpos : 0 < B64 ^ n := Nat.pow_pos B64_pos
+    rcases Nat.lt_trichotomy a b with hab | hab | hab
+    · rw [cmp_lt hab]
+      simp only
+      symm; apply cmp_lt
+      have : B64 ^ n * (a + 1) ≤ B64 ^ n * b := Nat.mul_le_mul_left _ hab
+      rw [Nat.mul_add, Nat.mul_one] at this
+      omega
+    · subst hab
+      rw [cmp_eq rfl]
+      simp only
+      rw [ih]
+      rcases Nat.lt_trichotomy (valL xs') (valL ys') with h | h | h
+      · rw [cmp_lt h, cmp_lt (by omega)]
+      · rw [cmp_eq h, cmp_eq (by omega)]
+      · rw [cmp_gt h, cmp_gt (by omega)]
+    · rw [cmp_gt hab]
+      simp only
+      symm; apply cmp_gt
+      have : B64 ^ n * (b + 1) ≤ B64 ^ n * a := Nat.mul_le_mul_left _ hab
+      rw [Nat.mul_add, Nat.mul_one] at this
+      omega
+
+/-- **`compare`** of normalised vectors is the comparison of the numbers -/
+theorem compareL_spec {x y : Limbs} (hx : Normalized x) (hy : Normalized y) :
+    compareL x y = compare (valL x) (valL y) := by
+  unfold compareL
+  rcases Nat.lt_trichotomy x.length y.length with h | h | h
+  · rw [cmp_lt h]
+    simp only
+    symm; apply cmp_lt
+    have hne : y ≠ [] := by intro h0; subst h0; simp at h
+    have h1 := valL_lt hx.1
+    have h2 := valL_ge hy hne
+    have : B64 ^ x.length ≤ B64 ^ (y.length - 1) := Nat.pow_le_pow_right B64_pos (by omega)
+    omega
+  · rw [cmp_eq h]
+    simp only
+    exact compareTop_spec x.length x y rfl h.symm hx.1 hy.1
+  · rw [cmp_gt h]
+    simp only
+    symm; apply cmp_gt
+    have hne : x ≠ [] := by intro h0; subst h0; simp at h
+    have h1 := valL_lt hy.1
+    have h2 := valL_ge hx hne
+    have : B64 ^ y.length ≤ B64 ^ (x.length - 1) := Nat.pow_le_pow_right B64_pos (by omega)
+    omega
+
 end LexVerif.Proof.Slow
